@@ -70,6 +70,7 @@ class ValueRun:
         self.deaths = []
         self.compile_errors = []
         self.total_compile_s = 0.0
+        self.hang_s = 900 if ctx.quick() else 7200
 
     def run(self, shards, timeout=3000):
         ctx = self.ctx
@@ -113,7 +114,10 @@ class ValueRun:
                 args = [exe] + self.extra_args
                 for sk in skip:
                     args += ["--skip", sk]
-                rc, out, err, secs, to = core.run_cmd(args, timeout=timeout, env=env)
+                # a watchdog turns a hang into SIGABRT so that the harness prints the case being evaluated (AUVDEATH)
+                rc, out, err, secs, to = core.run_cmd(["timeout", "-s", "ABRT", "-k", "30", str(self.hang_s)] + args, timeout=timeout, env=env)
+                if rc in (124, 128 + 6, 137) and secs >= self.hang_s - 1:
+                    err += "\nAUVHANG: no result within %d s" % self.hang_s
                 all_out.append((rc, out, err, to))
                 st, fl, de, other = parse_output(out)
                 if rc == 0 or to:
